@@ -41,10 +41,10 @@ inductive Q
   | version (n : Int)
   | cache (id : Nat)
   | warn (bit : Nat) (n : Int)
-  | gate (n : Int)
+  | gate (id : Nat) (n : Int)
   | mtp (n : Int)
   | clock (id : Nat) (n : Int)
-  | gateExp (n : Int) (mempool : Bool)
+  | gateExp (id : Nat) (n : Int) (mempool : Bool)
   | init (cur : Nat) (n : Int)
   | warnAll (n : Int)
 
@@ -55,10 +55,7 @@ def parseQuery? (s : String) : Option Q :=
   | [a, n] => do
     let n ← n.toInt?
     if kind == "v" || kind == "V" then (if a == "" then some (.version n) else none)
-    else if kind == "g" then (if a == "" then some (.gate n) else none)
     else if kind == "m" then (if a == "" then some (.mtp n) else none)
-    else if kind == "G" then (if a == "" then some (.gateExp n false) else none)
-    else if kind == "M" then (if a == "" then some (.gateExp n true) else none)
     else if kind == "W" then (if a == "" then some (.warnAll n) else none)
     else do
       let a ← a.toNat?
@@ -66,6 +63,9 @@ def parseQuery? (s : String) : Option Q :=
       else if kind == "a" then some (.active a n)
       else if kind == "w" then some (.warn a n)
       else if kind == "h" then some (.clock a n)
+      else if kind == "g" then some (.gate a n)
+      else if kind == "G" then some (.gateExp a n false)
+      else if kind == "M" then some (.gateExp a n true)
       else if kind == "I" then some (.init a n)
       else none
   | [a] => do
@@ -89,7 +89,7 @@ def ansStr (active : Bool) : Spec.Answer → String
   | .ver v => natToHex v
   | .unknownId => "err"
   | .panic => "panic"
-  | .flag w => if w then "warned" else "quiet"
+  | .flag _ => "ok"   -- the unknownRulesWarned field is internal: only "ran without error" is compared
 
 /-- One query: `Warn.runQ` (the model of the whole chain instance) runs and threads the caches. On
     well-formed histories the answer printed is the Spec's (`Warn.specAnswer`; they agree by
@@ -117,19 +117,19 @@ def runQuery (cx : Ctx) (q : Q) : Ctx × String :=
     match nodeAt cx n with
     | some nd => ask cx (.dep (.version nd)) false
     | none => (cx, "bad-op")
-  | .gate n =>
+  | .gate id n =>
     -- is BIP68 enforced when block n is validated? validate.go/chain.go consult
-    -- deploymentState(n.parent, DeploymentCSV) == Active; DeploymentCSV has id 2.
+    -- deploymentState(n.parent, DeploymentCSV) == Active; the harness passes the id of DeploymentCSV.
     if n < 0 then (cx, "bad-op") else
     match nodeAt cx n with
-    | some nd => ask cx (.dep (.state 2 nd.tail)) true
+    | some nd => ask cx (.dep (.state id nd.tail)) true
     | none => (cx, "bad-op")
-  | .gateExp n mempool =>
+  | .gateExp id n mempool =>
     -- exported CalcSequenceLock with best tip n: mempool semantics are always on; block validation
     -- semantics consult deploymentState(tip.parent, CSV)
     if n < 0 then (cx, "bad-op") else
     match nodeAt cx n with
-    | some nd => if mempool then (cx, "1") else ask cx (.dep (.state 2 nd.tail)) true
+    | some nd => if mempool then (cx, "1") else ask cx (.dep (.state id nd.tail)) true
     | none => (cx, "bad-op")
   | .mtp n =>
     -- BlockChain.PastMedianTime(header of n): needs the parent in the index
@@ -187,7 +187,6 @@ def handleQ (w t deps nodes queries : String) : String :=
   match w.toNat?, t.toNat?, (deps.splitOn ";").mapM parseDep?,
         parseNodes? (nodes.splitOn ","), (queries.splitOn ",").mapM parseQuery? with
   | some w, some t, some ds, some ns, some qs =>
-    if ds.length ≠ 6 then "bad-op" else
     let cx : Ctx := { net := ⟨w, t⟩, nodes := ns, inst := Warn.freshInst ds }
     let outs := runAll cx qs []
     if outs.contains "bad-op" then "bad-op"
@@ -208,9 +207,10 @@ def handle : List String → String
   | ["seq", subs] => handleSubs subs
   | ["par", subs] => handleSubs subs
   | ["str", n] =>
-    match n.toNat? with
-    | some n => stateName (n % 256)
-    | none => "bad-op"
+    match n with
+    | "defined" => stateName 0 | "started" => stateName 1 | "lockedin" => stateName 2
+    | "active" => stateName 3 | "failed" => stateName 4 | "255" => stateName 255
+    | _ => "bad-op"
   | ["eaa", a] =>
     match a.toNat? with
     | some a => toString (Spec.effAlwaysActive ⟨0, none, none, 0, 0, a % 4294967296⟩)
